@@ -192,6 +192,39 @@ func checkC17(c *Ctx) {
 		return ""
 	}
 
+	// ---- R17i what a request is answered with does not depend on Go's randomised map iteration order
+	r.Rule("R17i", "every range over a Go map in the emitted server runtime has an order-insensitive body: the answer to a request (violation lists, headers) is a function of the request, not of the map's per-iteration random order", 1)
+	if ep, err := c.ServerRuntime(); err != nil {
+		r.Unres("R17i", "emitted server runtime", "", err.Error())
+	} else {
+		nRanges := 0
+		for _, name := range sortedKeys(ep.Funcs) {
+			fd := ep.Funcs[name]
+			if fd.Body == nil {
+				continue
+			}
+			ast.Inspect(fd.Body, func(nd ast.Node) bool {
+				rs, ok := nd.(*ast.RangeStmt)
+				if !ok {
+					return true
+				}
+				tv, ok := ep.Info.Types[rs.X]
+				if !ok || tv.Type == nil {
+					return true
+				}
+				if _, isMap := tv.Type.Underlying().(*types.Map); !isMap {
+					return true
+				}
+				nRanges++
+				ok2, idiom, why := rangeBodyVerdictInfo(ep.Info, fd, rs)
+				r.CheckD(ok2, "R17i", fmt.Sprintf("emitted %s: range over the map %s", name, ep.Text(rs.X)), ep.GenPos(rs.Pos()),
+					"the emitted "+name+" iterates a Go map and its result depends on the iteration order ("+why+"): Go randomises that order per iteration, so the same request is answered differently from one call to the next (for validateHeaders: the order of the violations in the 400 body), and a call's result is not equal to the result of issuing that call alone", map[string]any{"idiom": idiom})
+				return true
+			})
+		}
+		r.OKd("R17i", "map ranges of the emitted server runtime inventoried", "", map[string]any{"ranges_over_maps": nRanges})
+	}
+
 	// ---- R17h pooled memory does not outlive its return to the pool
 	r.Rule("R17h", "no emitted function returns (or stores) memory derived from a sync.Pool value that the same function hands back to the pool: the next Get of a concurrent call overwrites it while it is still in use", 1)
 	{
